@@ -30,6 +30,7 @@ ASSUMPTIONS = [
 ]
 
 CONFIGS = {
+    "onelevel": {"S": ("categorical", True), "B": ("categorical", True), "A": ("categorical", True), "a": ("numerical", False)},
     "2cat+2num": {"A": ("categorical", True), "B": ("categorical", True), "a": ("numerical", False), "b": ("numerical", False)},
     "3cat+1num": {"A": ("categorical", True), "B": ("categorical", True), "C": ("categorical", True), "a": ("numerical", False)},
     "cat+nospan+2num": {"A": ("categorical", True), "N": ("categorical", False), "a": ("numerical", False), "b": ("numerical", False)},
@@ -125,6 +126,9 @@ def drv_ordered(c, ctx, col):
         idx.append(i)
     cluster = c.flag()
     terms = [lat[i] for i in idx]
+    if ctx.get("permute"):
+        # every written order of the factors inside each interaction (a:A vs A:a, A:B:a vs B:a:A, ...)
+        terms = [tuple(c.perm(list(t))) if len(t) > 1 else t for t in terms]
     key = "ordered %s terms=%s cluster=%s" % (cfg_name, " + ".join(":".join(t) for t in terms), cluster)
     emitted = run_stub(cfg_name, terms, cluster)
     atom_check(col, key, cfg_name, terms, emitted)
@@ -146,11 +150,12 @@ def crossed_frame():
     for rep in range(3):
         for x in "xyz":
             for y in "uv":
-                rows.append({"A": x, "B": y, "a": av[i % len(av)] + 0.37 * rep + 0.11 * i, "b": ((i * 7) % 11) + 1.5 + 0.29 * rep})
+                rows.append({"S": "s", "A": x, "B": y, "a": av[i % len(av)] + 0.37 * rep + 0.11 * i, "b": ((i * 7) % 11) + 1.5 + 0.29 * rep})
                 i += 1
     df = pd.DataFrame(rows)
     df["A"] = df["A"].astype(object)
     df["B"] = df["B"].astype(object)
+    df["S"] = df["S"].astype(object)
     return df
 
 
@@ -166,7 +171,7 @@ def gap_rank(M):
 
 
 def fexpr(name, contrast):
-    if name in ("A", "B"):
+    if name in ("A", "B", "S"):
         if contrast is None:
             return name
         if "treatment" in contrast and name == "B":
@@ -187,6 +192,8 @@ def drv_numeric(c, ctx, col):
             raise Skip()
         idx.append(i)
     terms = [lat[i] for i in idx]
+    if ctx.get("permute"):
+        terms = [tuple(c.perm(list(t))) if len(t) > 1 else t for t in terms]
     df = ctx["frame"]
     tl = [Term([Factor("1", eval_method="literal")]) if t == ("1",) else
           Term([Factor(fexpr(f, contrast), eval_method="lookup" if fexpr(f, contrast) == f else "python") for f in t]) for t in terms]
@@ -203,7 +210,7 @@ def drv_numeric(c, ctx, col):
     r, c1 = gap_rank(Rm)
     rf, c2 = gap_rank(Fm)
     rj, c3 = gap_rank(np.hstack([Rm, Fm]))
-    cfg_name = "2cat+2num"
+    cfg_name = ctx.get("cfg", "2cat+2num")
     # atom verdict from the flags the real run recorded in model_spec.structure
     emitted = []
     for s in R.model_spec.structure:
@@ -231,7 +238,7 @@ def drv_numeric(c, ctx, col):
         col.violation(key, {"formula": desc, "numeric": (num_full_rank, num_same_span), "atoms": (v["full_rank"], v["same_span"])},
                       sig="binding:atoms-vs-numeric")
     # number of columns must equal the dimension the atoms predict
-    dims = {"A": 2, "B": 1}
+    dims = ctx.get("dims", {"A": 2, "B": 1})
     want_dim = 0
     seen = set()
     for t in terms:
@@ -261,10 +268,18 @@ def subchecks(tier, seed):
             bounds={"factor_configs": ["2cat+2num"] if quick else list(CONFIGS), "lattice_terms": 15, "subsets": "all 2^15", "x": "intercept, clustering"}),
         Sub("atoms-ordered", drv_ordered, {"configs": list(CONFIGS), "N": 3 if quick else 4}, shard_depth=3,
             bounds={"factor_configs": list(CONFIGS), "max_terms": 3 if quick else 4, "universe": "intercept + 15 lattice terms"}),
+        Sub("atoms-ordered-factor-orders", drv_ordered, {"configs": ["2cat+2num"] if quick else ["2cat+2num", "3cat+1num"], "N": 2 if quick else 3, "permute": True},
+            shard_depth=3, bounds={"max_terms": 2 if quick else 3, "universe": "intercept + 15 lattice terms, every written factor order inside each interaction"}),
         Sub("numeric-rank", drv_numeric, {"names": ["A", "B", "a"], "N": 3 if quick else 4, "contrasts": CONTRASTS[:4] if quick else CONTRASTS, "frame": fr},
             shard_depth=3, bounds={"factors": ["A(3)", "B(2)", "a"], "max_terms": 3 if quick else 4,
                                    "contrasts": [str(x) for x in (CONTRASTS[:4] if quick else CONTRASTS)], "rows": len(fr)}),
     ]
+    subs.append(Sub("numeric-rank-factor-orders", drv_numeric, {"names": ["A", "B", "a"], "N": 2 if quick else 3, "contrasts": [None] if quick else [None, "contr.sum"],
+                                                                "frame": fr, "permute": True}, shard_depth=3,
+                    bounds={"factors": ["A(3)", "B(2)", "a"], "max_terms": 2 if quick else 3, "factor_orders": "every written order inside each interaction"}))
+    subs.append(Sub("numeric-rank-one-level", drv_numeric, {"names": ["S", "B", "a"], "N": 3, "contrasts": [None, "contr.sum"] if quick else CONTRASTS[:1] + CONTRASTS[2:],
+                                                            "frame": fr, "cfg": "onelevel", "dims": {"S": 0, "B": 1, "A": 2}}, shard_depth=3,
+                    bounds={"factors": ["S (one level)", "B(2)", "a"], "max_terms": 3}))
     if not quick:
         subs.append(Sub("numeric-rank-4factors", drv_numeric, {"names": ["A", "B", "a", "b"], "N": 2, "contrasts": [None, "contr.sum"], "frame": fr},
                         shard_depth=3, bounds={"factors": ["A(3)", "B(2)", "a", "b"], "max_terms": 2}))
